@@ -1,6 +1,9 @@
 #include "bushelp.h"
 #include <algorithm>
 #include <unistd.h>
+#include <cstdio>
+#include "stats.h"
+#include "grammar.h"
 
 namespace vp {
 
@@ -48,7 +51,7 @@ std::string match_frames(const std::vector<RecvFrame>& got, const std::vector<Ex
       if (used[i]) continue;
       if (frame_vs_exp(got[i].msg, e).empty()) { used[i] = true; found = true; break; }
     }
-    if (!found) return "missing expected frame: " + e.show();
+    if (!found && !e.optional) return "missing expected frame: " + e.show();
   }
   for (size_t i = 0; i < got.size(); i++) if (!used[i]) return "unexpected frame: " + frame_brief(got[i].msg);
   if (reply_last_serial) {
@@ -125,3 +128,114 @@ std::string normalize_uniques(const std::string& s) {
 }
 
 }  // namespace vp
+
+namespace vp {
+
+std::set<std::string> Hist::all_uniques;
+
+void Hist::fail(const char* kind, const std::string& what) {
+  std::string s;
+  for (auto& l : log) s += "  " + l + "\n";
+  violation(kind, what + "\nhistory:\n" + s);
+}
+
+void Hist::start(const std::string& config) {
+  std::string err;
+  if (!bus.start(config, &err)) { fprintf(stderr, "==VP== HARNESS ERROR: bus start failed: %s\n", err.c_str()); fflush(nullptr); _exit(2); }
+}
+
+int Hist::add_client(bool do_hello, uid_t uid, bool negotiate_fd) {
+  int c = bus.connect_raw(uid);
+  int m = model.add_conn();
+  if (c != m) { fprintf(stderr, "==VP== HARNESS ERROR: client/model index mismatch\n"); _exit(2); }
+  if (!bus.auth(c, negotiate_fd)) fail("setup", "authentication of client" + std::to_string(c) + " failed: '" + bus.client(c).text + "'");
+  if (do_hello) hello(c);
+  return c;
+}
+
+void Hist::hello(int c) {
+  std::vector<RecvFrame> extra;
+  uint32_t serial = bus.client(c).serial;
+  std::string u = bus.hello(c, &extra);
+  log.push_back("client" + std::to_string(c) + " Hello -> " + u);
+  if (u.empty() || u[0] != ':' || !is_unique_name(u)) fail("hello", "Hello did not return a grammatical unique name: '" + u + "'");
+  if (!all_uniques.insert(u).second) fail("unique-name-reused", "unique name " + u + " was handed out before in the lifetime of this bus process");
+  Out o; model.hello(c, u, serial, o);
+  { Msg dc; dc.type = T_CALL; dc.serial = serial; dc.set_str(F_PATH, 'o', BUS_PATH); dc.set_str(F_DESTINATION, 's', BUS_NAME); dc.set_str(F_INTERFACE, 's', BUS_IFACE); dc.set_str(F_MEMBER, 's', "Hello"); model.add_optional_eavesdrop(o, -1, nullptr);
+    // the Hello call itself reaches eavesdroppers with the placeholder sender: not predicted, so allow any copy of it
+    for (size_t y = 0; y < model.conns.size(); y++) if ((int)y != c) for (auto& r : model.conns[y].rules) if (r.eavesdrop) { Msg st = dc; st.set_str(F_SENDER, 's', u); Exp x = exp_forward(st); x.optional = true; o[(int)y].push_back(x); break; } }
+  std::vector<Exp> want; for (auto& e : o[c]) if (e.type == T_SIGNAL) want.push_back(e);
+  std::string d = match_frames(extra, want);
+  if (!d.empty()) fail("hello-frames", "client" + std::to_string(c) + " after its Hello: " + d + "\n  got:\n" + show_frames(extra) + "  want:\n" + show_exps(want));
+  Bus::free_frames(extra);
+  o.erase(c);
+  compare_all(o, -1, 0, "after a Hello");
+}
+
+void Hist::compare_all(Out& out, int caller, uint32_t serial, const char* what) {
+  for (size_t j = 0; j < bus.nclients(); j++) {
+    if (!bus.client((int)j).open()) continue;
+    auto fr = bus.drain((int)j);
+    std::vector<Exp>& want = out[(int)j];
+    if (bus.client((int)j).eof && model.conns[j].alive) fail("disconnected", "client" + std::to_string(j) + " was disconnected by the bus " + what);
+    std::string d = match_frames(fr, want, (int)j == caller ? serial : 0);
+    if (!d.empty()) fail("frames-differ", std::string(what) + " client" + std::to_string(j) + " (" + bus.client((int)j).unique + "): " + d + "\n  got:\n" + show_frames(fr) + "  want:\n" + show_exps(want));
+    Bus::free_frames(fr);
+  }
+}
+
+void Hist::add_rule(int c, const std::string& text) {
+  MatchRule mr; std::string why;
+  if (parse_match_rule(text, &mr, &why) != RuleParse::Ok) { fprintf(stderr, "==VP== HARNESS ERROR: harness rule does not parse: %s\n", why.c_str()); _exit(2); }
+  RecvFrame r; std::vector<RecvFrame> oth;
+  sync_call(bus, c, "AddMatch", {Value::str('s', text)}, &r, &oth);
+  log.push_back("client" + std::to_string(c) + " AddMatch " + text);
+  if (!(r.valid && r.msg.type == T_RETURN)) fail("setup", "AddMatch(" + text + ") failed");
+  model.add_match(c, mr);
+  // copies of the call/reply that eavesdroppers (including the caller) legitimately see are not checked here
+  Bus::free_frames(oth);
+  for (size_t j = 0; j < bus.nclients(); j++) if ((int)j != c && bus.client((int)j).open()) { auto fr = bus.drain((int)j); Bus::free_frames(fr); }
+}
+
+void Hist::own(int c, const std::string& name, uint32_t flags) {
+  uint32_t serial = bus.client(c).serial;
+  bus.bus_call(c, "RequestName", {Value::str('s', name), Value::basic('u', flags)});
+  Out o; std::string e;
+  BusModel before = model;
+  uint32_t code = model.request_name(c, name, flags, serial, o, &e);
+  { Msg dc; dc.type = T_CALL; dc.serial = serial; dc.set_str(F_PATH, 'o', BUS_PATH); dc.set_str(F_DESTINATION, 's', BUS_NAME); dc.set_str(F_INTERFACE, 's', BUS_IFACE); dc.set_str(F_MEMBER, 's', "RequestName"); dc.body = {Value::str('s', name), Value::basic('u', flags)}; dc.fix_signature(); before.add_optional_eavesdrop(o, c, &dc); }
+  log.push_back("client" + std::to_string(c) + "(" + uniq(c) + ") RequestName('" + name + "'," + std::to_string(flags) + ") -> model " + (code ? std::to_string(code) : e));
+  bus.pump();
+  compare_all(o, c, serial, "after RequestName");
+}
+
+std::string Hist::key() const { std::string k; for (auto& l : log) k += l + "|"; return normalize_uniques(k); }
+std::string Hist::sample() const { std::string s; for (auto& l : log) s += l + "; "; return normalize_uniques(s); }
+
+std::pair<long, int> Hist::finish() { long l = bus.stop(); return {l, bus.fds_leaked}; }
+
+}  // namespace vp
+
+namespace vp {
+static bool mg_rec(const std::vector<RecvFrame>& got, size_t oi, const std::vector<std::vector<Exp>>& groups, size_t gi, std::string* why) {
+  if (gi == groups.size()) { if (oi == got.size()) return true; *why = "unexpected extra frame: " + frame_brief(got[oi].msg); return false; }
+  const std::vector<Exp>& g = groups[gi];
+  size_t req = 0; for (auto& e : g) if (!e.optional) req++;
+  for (size_t k = req; k <= g.size(); k++) {
+    if (oi + k > got.size()) break;
+    std::vector<RecvFrame> slice(got.begin() + oi, got.begin() + oi + k);
+    std::string d = match_frames(slice, g);
+    if (d.empty() && mg_rec(got, oi + k, groups, gi + 1, why)) return true;
+    if (!d.empty() && why->empty()) *why = d;
+  }
+  if (why->empty()) *why = "frames missing for operation group #" + std::to_string(gi);
+  return false;
+}
+std::string match_groups(const std::vector<RecvFrame>& got, const std::vector<std::vector<Exp>>& groups) {
+  for (auto& f : got) if (!f.valid) return "bus emitted a frame the independent decoder rejects: " + f.why;
+  std::vector<std::vector<Exp>> g2; for (auto& g : groups) if (!g.empty()) g2.push_back(g);
+  std::string why;
+  if (mg_rec(got, 0, g2, 0, &why)) return "";
+  return why.empty() ? "no consistent split" : why;
+}
+}
